@@ -12,5 +12,6 @@ CONSTANTS
   ShrinkFrom = 1000000
   EmitDepth = 100
   FanFrom = 100
+  FanShrink = FALSE
 INVARIANTS EmitWalk
 CHECK_DEADLOCK FALSE
